@@ -11,8 +11,12 @@ props = [ID]
 for a in sys.argv:
     if a.startswith('--props'):
         props = a.split('=')[1].split(',')
-src = '/tmp/seed_out/%s' % ID
-wt = '/tmp/seed_%s' % ID
+rnd = ''
+for a in sys.argv:
+    if a.startswith('--round'):
+        rnd = a.split('=')[1]
+src = '/tmp/seed%s_out/%s' % (rnd, ID)
+wt = '/tmp/seed%s_%s' % (rnd, ID)
 def run(cmd, **kw):
     return subprocess.run(cmd, shell=True, capture_output=True, text=True, **kw)
 st = run('git -C /repo status --porcelain')
@@ -48,7 +52,7 @@ finally:
     run('git -C /repo checkout -- .')
     assert run('git -C /repo status --porcelain').stdout.strip() == ''
 print(json.dumps(res, indent=1))
-out = '/verif/seeded/%s%s' % (ID, '' if patch == 'patch.diff' else '.' + patch.replace('.diff', '').replace('patch', 'p'))
+out = '/verif/seeded/%s%s%s' % (ID, '' if patch == 'patch.diff' else '.' + patch.replace('.diff', '').replace('patch', 'p'), '.r' + rnd if rnd else '')
 ok = res['demo_unpatched_exit'] == 0 and res['demo_patched_exit_in_worktree'] == 1
 if ok:
     os.makedirs(out, exist_ok=True)
